@@ -103,7 +103,7 @@ func verifAssert(b bool, m string) {
 	}
 }
 func verifObserve(name string, val string) { fmt.Printf("VERIF-OBS %q %q\n", name, val) }
-func verifObserveInt(name string, val int)  { fmt.Printf("VERIF-OBS %q %q\n", name, strconv.Itoa(val)) }
+func verifObserveInt(name string, val int) { fmt.Printf("VERIF-OBS %q %q\n", name, strconv.Itoa(val)) }
 
 // verifLiveGoroutines: goroutines started since the tape was loaded that are still alive after
 // every runnable goroutine had ample time to finish.
@@ -119,13 +119,13 @@ func verifLiveGoroutines() int {
 }
 
 func verifFreeze(label string, roots ...interface{}) {}
-func verifFreezeGlobals()                           {}
-func verifUnfreeze()                                {}
-func verifMapOrder(site string)                     {}
-func verifMapOrderArg() string                      { return "" }
-func verifSteps() int                               { return 0 }
-func verifSymbolic() bool                           { return false }
-func verifRaceTrack(on bool) {}
+func verifFreezeGlobals()                            {}
+func verifUnfreeze()                                 {}
+func verifMapOrder(site string)                      {}
+func verifMapOrderArg() string                       { return "" }
+func verifSteps() int                                { return 0 }
+func verifSymbolic() bool                            { return false }
+func verifRaceTrack(on bool)                         {}
 
 // verifDeepDigest: structural digest of everything reachable from the roots (slices up to their
 // capacity, unexported fields included). The engine replaces it by a constant: there the frozen-
